@@ -192,6 +192,21 @@ class CoordInterp:
     def _reduce(self, e: ast.Call, a: CT, pos: int = 1, scale: int = 1) -> CT:
         if a.kind != "arr":
             return a
+        keep = any(k.arg == "keepdims" and isinstance(k.value, ast.Constant) and k.value.value is True for k in e.keywords)
+        if keep:
+            out = self._reduce_nokeep(e, a, pos, scale)
+            if out.kind != "arr":
+                return out
+            ax = self._axis_arg(e, pos)
+            if ax is None or (isinstance(ax, ast.Constant) and ax.value is None):
+                return CT("arr", (None,) * len(a.axes))
+            axv = ax.value if isinstance(ax, ast.Constant) else -ax.operand.value
+            if axv < 0:
+                axv += len(a.axes)
+            return CT("arr", out.axes[:axv] + (None,) + out.axes[axv:])
+        return self._reduce_nokeep(e, a, pos, scale)
+
+    def _reduce_nokeep(self, e: ast.Call, a: CT, pos: int = 1, scale: int = 1) -> CT:
         ax = self._axis_arg(e, pos)
         if ax is None or (isinstance(ax, ast.Constant) and ax.value is None):
             out = a
